@@ -823,6 +823,8 @@ func (s *Stream) Handshake(addr string, extraHeaders ...Header) (err error) {
 
 	if err != nil {
 		s.state = StateTerminated
+		// The handshake failed: do not keep the connection that was dialed for it.
+		_ = s.CloseNextLayer()
 	} else {
 		s.state = StateActive
 		err = s.init(stream)
@@ -853,6 +855,8 @@ func (s *Stream) AsyncHandshake(addr string, callback func(error), extraHeaders 
 			_ = s.ioc.Post(func() {
 				if err != nil {
 					s.state = StateTerminated
+					// The handshake failed: do not keep the connection that was dialed for it.
+					_ = s.CloseNextLayer()
 				} else {
 					s.state = StateActive
 					err = s.init(stream)
